@@ -11,10 +11,12 @@ CONSTANTS
   NB = 1
   Styles <- TwoStyles
   EmitMod = 16
+  HistLen = 0
 INVARIANT ReadBack
 INVARIANT V1Algorithm
 INVARIANT AutoOnV1
 INVARIANT AutoOnMixed
 INVARIANT AutoOnV2
+INVARIANT HistoryIndependent
 INVARIANT Witness
 INVARIANT Emit
